@@ -1838,12 +1838,32 @@ class unyt_array(np.ndarray):
                 out_func = tuple(out_func)
             else:
                 out = out[0]
-                if out.dtype.kind in ("u", "i"):
-                    new_dtype = "f" + str(out.dtype.itemsize)
-                    float_values = out.astype(new_dtype)
-                    out.dtype = new_dtype
-                    np.copyto(out, float_values)
                 out_func = out.view(np.ndarray)
+
+        def evaluate(*args):
+            # Integer output buffers are converted to floating point in
+            # place. This must only happen once the operation is known to
+            # succeed, so the ufunc is evaluated into a temporary floating
+            # point copy first: if anything raises (including the ufunc
+            # itself), ``out`` still holds its original values and dtype.
+            if (
+                out is None
+                or isinstance(out, tuple)
+                or out.dtype.kind not in ("u", "i")
+            ):
+                return func(*args, out=out_func, **kwargs), out_func
+            if not out.flags.writeable:
+                raise ValueError("output array is read-only")
+            new_dtype = "f" + str(out.dtype.itemsize)
+            float_values = out.astype(new_dtype).view(np.ndarray)
+            func(*args, out=float_values, **kwargs)
+            # change the dtype in-place, this does not change the
+            # underlying memory buffer, then fill in the new float values
+            out.dtype = new_dtype
+            new_out_func = out.view(np.ndarray)
+            np.copyto(new_out_func, float_values)
+            return new_out_func, new_out_func
+
         if len(inputs) == 1:
             # Unary ufuncs
             inp = inputs[0]
@@ -1851,13 +1871,14 @@ class unyt_array(np.ndarray):
             if u.dimensions is angle and ufunc in trigonometric_operators:
                 # ensure np.sin(90*degrees) works as expected
                 inp = inp.in_units("radian").v
-            # evaluate the ufunc
-            out_arr = func(np.asarray(inp), out=out_func, **kwargs)
+            # get the unit of the result first: this is what refuses invalid
+            # operations, and it must do so before anything is written to out
             if ufunc in (multiply, divide) and method == "reduce":
                 mul, unit = _apply_power_mapping(ufunc, u, inp.size, inp.shape, kwargs)
             else:
-                # get unit of result
                 mul, unit = self._ufunc_registry[ufunc](u)
+            # evaluate the ufunc
+            out_arr, out_func = evaluate(np.asarray(inp))
             # use type(self) here so we can support user-defined
             # subclasses of unyt_array
             ret_class = type(self)
@@ -1991,18 +2012,8 @@ class unyt_array(np.ndarray):
                     inp1 = np.asarray(inp1, dtype=new_dtype) * conv
             # get the unit of the result
             mul, unit = unit_operator(u0, u1)
-            # actually evaluate the ufunc
-            out_arr = func(
-                inp0.view(np.ndarray), inp1.view(np.ndarray), out=out_func, **kwargs
-            )
             if unit_operator in (_multiply_units, _divide_units):
-                if unit.is_dimensionless and unit.base_value != 1.0:
-                    if not u0.is_dimensionless:
-                        if u0.dimensions == u1.dimensions:
-                            out_arr = np.multiply(
-                                out_arr.view(np.ndarray), unit.base_value, out=out_func
-                            )
-                            unit = Unit(registry=unit.registry)
+                # refuse before anything is written to out
                 if (
                     u0.base_offset
                     and u0.dimensions is temperature
@@ -2013,6 +2024,16 @@ class unyt_array(np.ndarray):
                         "Quantities with units of Fahrenheit or Celsius "
                         "cannot be multiplied, divided, subtracted or added."
                     )
+            # actually evaluate the ufunc
+            out_arr, out_func = evaluate(inp0.view(np.ndarray), inp1.view(np.ndarray))
+            if unit_operator in (_multiply_units, _divide_units):
+                if unit.is_dimensionless and unit.base_value != 1.0:
+                    if not u0.is_dimensionless:
+                        if u0.dimensions == u1.dimensions:
+                            out_arr = np.multiply(
+                                out_arr.view(np.ndarray), unit.base_value, out=out_func
+                            )
+                            unit = Unit(registry=unit.registry)
         else:
             if ufunc is clip:
                 inp = []
